@@ -425,7 +425,7 @@ func solveCovers(fr *FuncResult, opts SolveOpts) map[string]string {
 				fmt.Fprintf(&fb, "(assert %s)\n", ci.Cond.S)
 				fb.WriteString("(check-sat)\n")
 				ftag := tag + ".full"
-				fls, _, _ := runSolver("z3-new", fb.String(), 1500, 1, opts.WorkDir, ftag)
+				fls, _, _ := runSolver("z3-new", fb.String(), 600, 1, opts.WorkDir, ftag)
 				ffiles, _ := filepath.Glob(filepath.Join(opts.WorkDir, ftag+".*"))
 				for _, f := range ffiles {
 					os.Remove(f)
